@@ -49,7 +49,8 @@ CHECKS = {
         level="model_checking", design_ref="DESIGN.md 4/C05",
         text="Every history of 5 (thorough 6) allocator events x interval 1..3 x rollback target x second rollback on small arenas incl. "
              "growth to 3 arenas after the restored checkpoint, and 4 (5) events on production constants: restored state, coast forward, "
-             "re-execution of the undone suffix and repeated rollback all equal the first run.",
+             "re-execution of the undone suffix and repeated rollback all equal the first run; end to end (h_run, p<=1) the generator "
+             "state after every rollback / silent re-execution and no sends during coast forward.",
         note="Re-allocated blocks compared by identity/size/content (not address); event suppression and RNG replay are checked "
              "end-to-end by the whole-runtime checks."),
     "C13": dict(
@@ -74,7 +75,7 @@ CHECKS = {
         level="model_checking", design_ref="DESIGN.md 4/C19",
         text="All 8 geometries, grids up to 4x4 (thorough 6x6), 1..6 (8) regions, every graph on <=3 regions, every source and direction; "
              "DIRECTION_RANDOM on 1.5k (5.9k) generator states incl. rollback-and-repeat after another LP's call; CountDirections and "
-             "IsNeighbor consistency.",
+             "IsNeighbor consistency; every call-level interleaving (<=4 preemptions, thorough all) of two LPs on two threads.",
         note="Concurrent use is only sampled by a free-running two-thread pass; the memo oracle is sequential."),
     "C10": dict(
         engine="seqx", technique="exhaustive enumeration of the vmodel program grammar on the real serial runtime, compared dispatch by "
@@ -99,12 +100,13 @@ CHECKS = {
         text="Long trickling models with back-to-back GVT rounds, runs ended by predicate/exhaustion, termination time, RootsimStop from a "
              "handler and an external thread, p<=1 (thorough 2): every entry leaving a history below the GVT is, in order and content and "
              "state hash, the next event of the sequential per-LP sequence; nothing at or above the GVT is released.",
-        note="One rank here (two ranks under C02); call granularity."),
+        note="1-2 ranks; call granularity."),
     "C04": dict(engine="rsched", technique="preemption/deviation-bounded exhaustive exploration of the real runtime under a deterministic scheduler (fork per execution, delay-bounded levels) with every atomic of the GVT/termination/queue code as scheduling point", level="model_checking",
         design_ref="DESIGN.md 4/C04",
         text="Fine-grained interleavings (p<=1; thorough p<=2) of the GVT reduction with message traffic on tiny models, 2-3 threads, plus "
              "call-granularity p<=2: per-thread GVT sequences monotone and equal, no extraction/rollback below a told value, nothing "
-             "below it queued or in flight at the moment it is told.",
+             "below it queued or in flight at the moment it is told; plus a stateful complete-state search of gvt.c + the real queue "
+             "under a cyclic main-loop-shaped driver (h_gvt; thorough: closed state graph of the smallest configuration).",
         note="Sequentially consistent interleavings; relaxed orderings not modelled; rank-level colouring under C02."),
     "C06": dict(engine="rsched", technique="preemption/deviation-bounded exhaustive exploration of the real runtime under a deterministic scheduler (fork per execution, delay-bounded levels) with the message flag words and queue atomics as scheduling points; buffer life-cycle monitor",
         level="model_checking", design_ref="DESIGN.md 4/C06",
@@ -116,7 +118,8 @@ CHECKS = {
         design_ref="DESIGN.md 4/C07",
         text="Predicate kinds (monotone, non-monotone, true at init, first true at timestamp 0, never) x models x 1-3 threads x p<=1 "
              "(thorough 2): RootsimRun returns only if the largest GVT reached the termination time or every LP's predicate held on a "
-             "committed reference state.",
+             "committed reference state; plus every call sequence (depth 5, thorough 6) of the termination module against a shadow "
+             "of the valid event history (s_term).",
         note="Finite models; call granularity."),
     "C08": dict(engine="rsched", technique="preemption/deviation-bounded exhaustive exploration of the real runtime under a deterministic scheduler (fork per execution, delay-bounded levels); deadlock = all live threads parked (confirmed), livelock = step budget", level="model_checking",
         design_ref="DESIGN.md 4/C08",
@@ -134,7 +137,7 @@ CHECKS = {
         design_ref="DESIGN.md 4/C20",
         text="Statistics file of every explored execution (4 models x threads x GVT period x endings, p<=1) parsed per the documented "
              "layout and compared record by record with the occurrences counted by the wrappers; shipped parser as second reader. "
-             "Unequal record counts (off by one) are a recorded known finding.",
+             "The unequal-record-count defect it found is repaired (fix: e8e7b02).",
         note="Counters only, one rank."),
     "C11": dict(engine="rsched", technique="the bounded exhaustive enumerations of the other checks re-run on ASan+UBSan builds of the core",
         level="model_checking", design_ref="DESIGN.md 4/C11",
